@@ -41,3 +41,18 @@ for ob in rr.obligations:
             s.add(z3.Not(gi[1]))
             t1 = time.time(); r = s.check()
             print("   ground", len(gi[0]), r, round(time.time() - t1, 1), "s")
+            if r == z3.sat and "-m" in sys.argv:
+                m = s.model()
+                for d in sorted(m.decls(), key=lambda d: d.name()):
+                    if d.arity() == 0 and any(k in d.name() for k in sys.argv[sys.argv.index("-m") + 1:]):
+                        print("      ", d.name(), "=", m[d])
+        if "-m" in sys.argv:
+            s = z3.Solver(); s.set("timeout", 60000)
+            for h in pool: s.add(h)
+            s.add(z3.Not(ob.goal))
+            r = s.check(); print("full:", r)
+            if r == z3.sat:
+                m = s.model()
+                for d in sorted(m.decls(), key=lambda d: d.name()):
+                    if d.arity() == 0 and any(k in d.name() for k in sys.argv[sys.argv.index("-m") + 1:]):
+                        print("   ", d.name(), "=", m[d])
